@@ -307,7 +307,7 @@ def chain : Policy Fix where
     1 = PollFuture -/
 def waitUntilF : Policy Fix where
   pre s := s.misuseIfDead
-  order s := if s.cnt = 0 then [0, 1] else [1]
+  order s := (if s.cnt = 0 then [0, 1] else [1]).filter (· < s.n)
   start s := s
   preAny _ := false
   loopAny := false
@@ -329,7 +329,7 @@ def waitUntilF : Policy Fix where
 /-- stream/wait_until.rs:49-62 — child 0 = deadline (a future), child 1 = inner stream -/
 def waitUntilS : Policy Fix where
   pre s := s.misuseIfDead
-  order s := if s.cnt = 0 then [0, 1] else [1]
+  order s := (if s.cnt = 0 then [0, 1] else [1]).filter (· < s.n)
   start s := s
   preAny _ := false
   loopAny := false
